@@ -21,11 +21,12 @@ structure SameSend (c c' : Chan) : Prop where
   sendBuf : c'.sendBuf = c.sendBuf
   recvState : c'.recvState = c.recvState
   recvEofPending : c'.recvEofPending = c.recvEofPending
+  sendEofPending : c'.sendEofPending = c.sendEofPending
 
-theorem SameSend.refl (c : Chan) : SameSend c c := ⟨rfl, rfl, rfl, rfl, rfl, rfl, rfl, rfl, rfl, rfl, rfl⟩
+theorem SameSend.refl (c : Chan) : SameSend c c := ⟨rfl, rfl, rfl, rfl, rfl, rfl, rfl, rfl, rfl, rfl, rfl, rfl⟩
 theorem SameSend.trans {a b c : Chan} (h1 : SameSend a b) (h2 : SameSend b c) : SameSend a c :=
   ⟨h2.1.trans h1.1, h2.2.trans h1.2, h2.3.trans h1.3, h2.4.trans h1.4, h2.5.trans h1.5, h2.6.trans h1.6,
-   h2.7.trans h1.7, h2.8.trans h1.8, h2.9.trans h1.9, h2.10.trans h1.10, h2.11.trans h1.11⟩
+   h2.7.trans h1.7, h2.8.trans h1.8, h2.9.trans h1.9, h2.10.trans h1.10, h2.11.trans h1.11, h2.12.trans h1.12⟩
 
 theorem SameSend.sStage {c c' : Chan} (h : SameSend c c') : sStage c' = sStage c := by
   simp [Channel.sStage, h.sendState]
@@ -99,7 +100,7 @@ theorem deliverData_spec (c : Chan) (d : Bytes) (dt : DType) :
     simp only [needAdjust, decide_eq_false_iff_not] at h
     omega
   unfold deliverData
-  refine ⟨⟨rfl, rfl, rfl, rfl, rfl, rfl, rfl, rfl, rfl, rfl, rfl⟩, rfl, ?_, ?_, ?_, ?_, ?_, ?_⟩
+  refine ⟨⟨rfl, rfl, rfl, rfl, rfl, rfl, rfl, rfl, rfl, rfl, rfl, rfl⟩, rfl, ?_, ?_, ?_, ?_, ?_, ?_⟩
   · simp only
     split
     · unfold sendPkt; split <;> simp [allAdjust]
@@ -337,7 +338,9 @@ theorem writeEof_spec (c c' : Chan) (ms : List Msg) (hw : WFs c) (h : writeEof c
     Eff c c' ms [] ∧ c'.recvState = c.recvState ∧ c'.recvBuf = c.recvBuf ∧ c'.recvPaused = c.recvPaused ∧
     c'.recvWindow = c.recvWindow ∧ c'.pauseAfter = c.pauseAfter ∧ c'.recvEofPending = c.recvEofPending ∧
     ((c.sendBuf = [] ∨ c.sendWindow = 0 ∨ c.sendPktsize = 0) →
-      (c'.sendBuf = [] ∨ c'.sendWindow = 0 ∨ c'.sendPktsize = 0)) := by
+      (c'.sendBuf = [] ∨ c'.sendWindow = 0 ∨ c'.sendPktsize = 0)) ∧ (PendOK c → PendOK c') ∧
+    (c'.sendEofPending = true → c.sendEofPending = true) ∧
+    ((SendWaiting c → SendWaiting c') ∧ (c.sendState = .opn → c'.sendState = .eof → Msg.eof ∈ ms)) := by
   unfold writeEof at h
   split at h
   · rename_i hs
@@ -348,7 +351,11 @@ theorem writeEof_spec (c c' : Chan) (ms : List Msg) (hw : WFs c) (h : writeEof c
     have e := sp.eff hw0
     refine ⟨⟨⟨e.cfg.1, e.cfg.2, e.cfg.3, e.cfg.4, e.cfg.5⟩, e.sendStream, e.sendWindow, ?_, e.wfs, e.pktBound, e.recvStream, e.winGe, e.winEq, e.rstage,
       ?_, e.half, ?_⟩, sp.same.recvState, sp.same.recvBuf, sp.same.recvPaused, sp.same.recvWindow,
-      sp.same.pauseAfter, sp.same.recvEofPending, fun _ => sp.exit⟩
+      sp.same.pauseAfter, sp.same.recvEofPending, fun _ => sp.exit, fun _ => sp.pendBuf, sp.flagMono,
+      ⟨fun hwt => by rcases hwt with h1 | ⟨h1, _⟩ <;> (rw [hs] at h1; cases h1), fun _ he => by
+        rcases sp.waiting (Or.inl rfl) with h1 | h1
+        · rcases h1 with h1 | ⟨h1, _⟩ <;> (rw [he] at h1; cases h1)
+        · exact h1⟩⟩
     · have : sStage c = sStage { c with sendState := .eofPending } := by simp [sStage, hs]
       rw [this]; exact e.path
     · intro _; exact hw.chanOpen.mpr (by simp [hs])
@@ -358,7 +365,8 @@ theorem writeEof_spec (c c' : Chan) (ms : List Msg) (hw : WFs c) (h : writeEof c
       · simp at ht
   · simp only [Option.some.injEq, Prod.mk.injEq] at h
     obtain ⟨rfl, rfl⟩ := h
-    exact ⟨Eff.refl c hw, rfl, rfl, rfl, rfl, rfl, rfl, id⟩
+    rename_i hs
+    exact ⟨Eff.refl c hw, rfl, rfl, rfl, rfl, rfl, rfl, id, id, id, id, fun h1 => absurd h1 hs⟩
 
 structure EofStepSpec (c c' : Chan) (ms : List Msg) (os : List Out) : Prop where
   eff : Eff c c' ms os
@@ -366,6 +374,9 @@ structure EofStepSpec (c c' : Chan) (ms : List Msg) (os : List Out) : Prop where
   recvPaused : c'.recvPaused = c.recvPaused
   pauseAfter : c'.pauseAfter = c.pauseAfter
   recvEofPending : c'.recvEofPending = c.recvEofPending
+  pend : PendOK c → PendOK c'
+  sendFlagMono : c'.sendEofPending = true → c.sendEofPending = true
+  sendProg : (SendWaiting c → SendWaiting c') ∧ (c.sendState = .opn → c'.sendState = .eof → Msg.eof ∈ ms)
   exit : (c.sendBuf = [] ∨ c.sendWindow = 0 ∨ c.sendPktsize = 0) →
     (c'.sendBuf = [] ∨ c'.sendWindow = 0 ∨ c'.sendPktsize = 0)
   fired : os = [.eof] ∧ c.recvState = .eofPending ∧ c'.recvState = .eof ∧ c.recvBuf = [] ∧ c.recvPaused ≠ .starting ∨
@@ -390,7 +401,7 @@ theorem eofStep_spec (c c' : Chan) (ms : List Msg) (os : List Out) (hw : WFs c)
       · rename_i c3 ms3 hwe
         simp only [Option.some.injEq, Prod.mk.injEq] at h
         obtain ⟨rfl, rfl, rfl⟩ := h
-        obtain ⟨e1, h1, h2, h3, h4, h5, h5b, h6⟩ := writeEof_spec _ _ _ hw2 hwe
+        obtain ⟨e1, h1, h2, h3, h4, h5, h5b, h6, h7, h8, h9⟩ := writeEof_spec _ _ _ hw2 hwe
         have e := e0.trans e1 e1.sendTrans
         simp only [List.nil_append] at e
         have e' : Eff c c3 ms3 [.eof] := by
@@ -399,7 +410,7 @@ theorem eofStep_spec (c c' : Chan) (ms : List Msg) (os : List Out) (hw : WFs c)
           · simpa [dataOuts] using e.recvStream
           · simpa [dataOuts] using e.winGe
           · simpa [dataOuts] using e.winEq
-        exact ⟨e', h2, h3, h5, h5b, h6, Or.inl ⟨rfl, hs, h1, hb', hp⟩⟩
+        exact ⟨e', h2, h3, h5, h5b, h7, h8, h9, h6, Or.inl ⟨rfl, hs, h1, hb', hp⟩⟩
     · simp only [Option.some.injEq, Prod.mk.injEq] at h
       obtain ⟨rfl, rfl, rfl⟩ := h
       have e' : Eff c { c with recvState := .eof } [] [.eof] := by
@@ -408,11 +419,11 @@ theorem eofStep_spec (c c' : Chan) (ms : List Msg) (os : List Out) (hw : WFs c)
         · simpa [dataOuts] using e0.recvStream
         · simpa [dataOuts] using e0.winGe
         · simpa [dataOuts] using e0.winEq
-      exact ⟨e', rfl, rfl, rfl, rfl, id, Or.inl ⟨rfl, hs, rfl, hb', hp⟩⟩
+      exact ⟨e', rfl, rfl, rfl, rfl, id, id, ⟨id, fun h1 h2 => by rw [h1] at h2; cases h2⟩, id, Or.inl ⟨rfl, hs, rfl, hb', hp⟩⟩
   · rename_i hc
     simp only [Option.some.injEq, Prod.mk.injEq] at h
     obtain ⟨rfl, rfl, rfl⟩ := h
-    refine ⟨Eff.refl c hw, rfl, rfl, rfl, rfl, id, Or.inr ⟨rfl, rfl, rfl, ?_⟩⟩
+    refine ⟨Eff.refl c hw, rfl, rfl, rfl, rfl, id, id, ⟨id, fun h1 h2 => by rw [h1] at h2; cases h2⟩, id, Or.inr ⟨rfl, rfl, rfl, ?_⟩⟩
     intro ⟨a, b, d⟩
     exact hc ⟨by simp [a], b, d⟩
 
@@ -434,7 +445,7 @@ theorem closeStep_spec (c : Chan) (hw : WFs c) : CloseStepSpec c (closeStep c).1
     obtain ⟨hb, hs⟩ := hc
     have hb' : c.recvBuf = [] := by simpa [List.isEmpty_iff] using hb
     simp only
-    refine ⟨?_, ⟨rfl, rfl, rfl, rfl, rfl, rfl, rfl, rfl, rfl, rfl, rfl⟩, rfl, rfl, rfl, rfl,
+    refine ⟨?_, ⟨rfl, rfl, rfl, rfl, rfl, rfl, rfl, rfl, rfl, rfl, rfl, rfl⟩, rfl, rfl, rfl, rfl,
       Or.inl ⟨hs, rfl, hb', rfl, ?_⟩⟩
     · refine ⟨⟨rfl, rfl, rfl, rfl, rfl⟩, rfl, by simp [dataOf, bufBytes], by simp [LinkOK, sStage],
         ⟨hw.chanOpen, hw.drained⟩, by simp, ?_, ?_, ?_, ?_, id, id, Or.inl rfl⟩
@@ -478,6 +489,9 @@ structure FlushRecvSpec (c c' : Chan) (ms : List Msg) (os : List Out) : Prop whe
   flagMono : c'.recvEofPending = true → c.recvEofPending = true
   flagKeep : c'.recvState ≠ .closed → c'.recvEofPending = c.recvEofPending
   flagOut : c.recvState = .closePending → c.recvEofPending = true → c'.recvState = .closed → Out.eof ∈ os
+  pend : PendOK c → PendOK c'
+  sendFlagMono : c'.sendEofPending = true → c.sendEofPending = true
+  sendProg : (SendWaiting c → SendWaiting c') ∧ (c.sendState = .opn → c'.sendState = .eof → Msg.eof ∈ ms)
 
 theorem flushRecv_spec (c c' : Chan) (ms : List Msg) (os : List Out) (hw : WFs c)
     (h : flushRecv c = some (c', ms, os)) : FlushRecvSpec c c' ms os := by
@@ -545,7 +559,7 @@ theorem flushRecv_spec (c c' : Chan) (ms : List Msg) (os : List Out) (hw : WFs c
       rcases hd.exit with hl | hl
       · exact hl
       · exact absurd hp hl
-    refine ⟨by simpa [List.append_assoc] using e123, ?_, ?_, ?_, ?_, ?_, ?_, ?_, ?_, ?_, ?_, ?_, ?_, ?_, ?_, ?_, ?_, ?_, ?_⟩
+    refine ⟨by simpa [List.append_assoc] using e123, ?_, ?_, ?_, ?_, ?_, ?_, ?_, ?_, ?_, ?_, ?_, ?_, ?_, ?_, ?_, ?_, ?_, ?_, ?_, ?_, ?_⟩
     · intro hx
       have h1 : ({ c1 with recvBuf := left } : Chan).sendBuf = [] ∨ ({ c1 with recvBuf := left } : Chan).sendWindow = 0 ∨
           ({ c1 with recvBuf := left } : Chan).sendPktsize = 0 := by
@@ -655,5 +669,36 @@ theorem flushRecv_spec (c c' : Chan) (ms : List Msg) (os : List Out) (hw : WFs c
       · rw [h3o]; simp
       · rw [hf] at hf0; cases hf0
       · rw [h3, hs] at hcl; cases hcl
+    · intro hp
+      have h1 : PendOK ({ c1 with recvBuf := left } : Chan) := by
+        unfold PendOK at *
+        show c1.sendState = .eofPending ∨ c1.sendState = .closePending → c1.sendBuf ≠ []
+        rw [hd.same.sendState, hd.same.sendBuf]; exact hp
+      have h2 := s2.pend h1
+      unfold PendOK at *
+      have a := s3.same.sendState; have b := s3.same.sendBuf
+      simp only at a b
+      rw [a, b]; exact h2
+    · intro hf
+      have a := s3.same.sendEofPending
+      simp only at a
+      rw [a] at hf
+      have := s2.sendFlagMono hf
+      have b : ({ c1 with recvBuf := left } : Chan).sendEofPending = c.sendEofPending := hd.same.sendEofPending
+      rw [← b]; exact this
+    · have hs1 : ({ c1 with recvBuf := left } : Chan).sendState = c.sendState := hd.same.sendState
+      have hf1 : ({ c1 with recvBuf := left } : Chan).sendEofPending = c.sendEofPending := hd.same.sendEofPending
+      have hs3 := s3.same.sendState; have hf3 := s3.same.sendEofPending
+      simp only at hs3 hf3
+      refine ⟨?_, ?_⟩
+      · intro hwt
+        have h1 : SendWaiting ({ c1 with recvBuf := left } : Chan) := by
+          unfold SendWaiting at *; rw [hs1, hf1]; exact hwt
+        have h2 := s2.sendProg.1 h1
+        unfold SendWaiting at *; rw [hs3, hf3]; exact h2
+      · intro ho he
+        rw [hs3] at he
+        have := s2.sendProg.2 (hs1.trans ho) he
+        exact List.mem_append_right _ this
 
 end AsyncsshModel.Channel
